@@ -1574,12 +1574,16 @@ def _encode(kind, spec):
     cto = len(out)
     out += _emit_bpt(e, cto, items, spec.get("chrom_block_size", 256), key_size, pad)
     data_count = spec.get("data_count", len(blocks) if kind == "bigwig" else n_items)
-    seg, fdo, fio = _emit_indexed(e, len(out), blocks, spans, fanout, layout, ips,
+    # `gap_before_data` = N: the data, the indexes and everything after them sit N bytes further into the file (a hole of N zero
+    # bytes after the chromosome tree; offsets ≥ 2^32 without materialising 4 GiB — the result is then a list of segments)
+    shift = int(spec.get("gap_before_data", 0))
+    cut = len(out)
+    seg, fdo, fio = _emit_indexed(e, len(out) + shift, blocks, spans, fanout, layout, ips,
                                   "Q", data_count, pad)
     out += seg
     zh = []
     for z, zips, zb, zs, nrec in zraw:
-        seg, zdo, zio = _emit_indexed(e, len(out), [pack(b) for b in zb], zs, fanout, layout,
+        seg, zdo, zio = _emit_indexed(e, len(out) + shift, [pack(b) for b in zb], zs, fanout, layout,
                                       zips, "I", nrec, pad)
         out += seg
         zh.append((z["reduction"], 0, zdo, zio))
@@ -1598,6 +1602,8 @@ def _encode(kind, spec):
                      aso, tso, ubs, 0)
     for i, z in enumerate(zh):
         struct.pack_into(e + "IIQQ", out, 64 + 24 * i, *z)
+    if shift:
+        return [(0, bytes(out[:cut])), (cut + shift, bytes(out[cut:]))]
     return bytes(out)
 
 
